@@ -463,19 +463,28 @@ def r12_8(prog: Program, rep: Report):
         except AnalysisError:
             continue
         bad = []
+
+        def cached(base):
+            """the memoised call `base` is, or is a component of (item, unpacked position, loop element)"""
+            while base[0] in ("sub", "unpack", "elem", "star") and len(base) > 1 and isinstance(base[1], tuple):
+                base = base[1]
+            return T.refname(base[1]) if base[0] == "call" and T.refname(base[1]) in memo else None
+
         for p in ps:
             for e in p.events:
-                if e[0] in ("setitem", "delete"):
+                if e[0] in ("setitem", "delete", "setattr"):
                     base = e[1]
                     if e[0] == "delete" and base[0] == "sub":
                         base = base[1]
-                    if base[0] == "call" and T.refname(base[1]) in memo:
-                        bad.append(f"{e[0]} on the cached result of {T.refname(base[1])}")
+                    if e[0] == "setitem" and len(e) > 4 and e[4] and cached(base) is None:
+                        continue
+                    if cached(base):
+                        bad.append(f"{e[0]} on {'a component of ' if base[0] != 'call' else ''}the cached result of {cached(base)}")
             for c in p.calls():
                 if c[1][0] == "attr" and c[1][2] in E.MUTATORS:
                     base = c[1][1]
-                    if base[0] == "call" and T.refname(base[1]) in memo:
-                        bad.append(f".{c[1][2]}() on the cached result of {T.refname(base[1])}")
+                    if cached(base):
+                        bad.append(f".{c[1][2]}() on {'a component of ' if base[0] != 'call' else ''}the cached result of {cached(base)}")
         if bad:
             n += 1
             rep.violated("R12.8", q, f.loc, f"mutates a memoised result in place ({sorted(set(bad))[0]}): every later consumer of that cache entry sees the change", detail="cached-mutation")
